@@ -88,7 +88,7 @@ SUPPRESSIONS = [
         "task_done_follows_get",
     ),
     Suppression(
-        "aiomysensors.transport.mqtt.MQTTTransport.read",
+        "aiomysensors.transport.mqtt.*",  # read itself, or a helper it hands the dequeued item to
         r"raise RuntimeError$",
         "builtins.RuntimeError",
         "constructor-site invariant of ReceivedMessage: every ERROR message is built with error=<Exception>, every MESSAGE with message=<str>",
@@ -222,11 +222,12 @@ class EEA:
         for (exc, site), path in esc.items():
             sup = None
             for s in SUPPRESSIONS:
-                if fnmatch.fnmatchcase(site.func, s.func) and s.exc == exc and re.search(s.text, site.text):
+                # every triaged entry that names this construct is tried; one whose premise holds today discharges it
+                if fnmatch.fnmatchcase(site.func, s.func) and s.exc == exc and re.search(s.text, site.text) and getattr(self, f"_premise_{s.premise}")(site):
                     sup = s
                     break
             if sup is not None:
-                ok = getattr(self, f"_premise_{sup.premise}")(site)
+                ok = True
                 if ok:
                     tag = f"{site.func}::{site.text}::{short_exc(exc)} - {sup.reason}"
                     if tag not in self.suppressions_used:
@@ -766,6 +767,28 @@ class EEA:
         fr = fr.with_taint(frozenset(tainted))
         return live[0].replace(fr=fr, facts=facts)
 
+    def kn(self, e: ast.AST, f) -> str:
+        """norm() with walrus targets and single-assignment locals bound to a plain attribute chain of a parameter
+        (`node_id = message.node_id`, `(node_id := message.node_id)`) written out: the same key under another name."""
+        I = self.I
+
+        class _K(ast.NodeTransformer):
+            def visit_NamedExpr(self, n):
+                return self.visit(n.value)
+
+            def visit_Name(self, n):
+                if isinstance(n.ctx, ast.Load) and n.id not in f.params:
+                    la = I.local_assigns(f).get(n.id) or []
+                    if len(la) == 1 and isinstance(la[0], ast.Attribute):
+                        b = la[0]
+                        while isinstance(b, ast.Attribute):
+                            b = b.value
+                        if isinstance(b, ast.Name) and b.id in f.params:
+                            return copy.deepcopy(la[0])
+                return n
+
+        return norm(_K().visit(copy.deepcopy(e)))
+
     def facts_of_test(self, test: ast.expr, st: St):
         """(facts when true, facts when false)."""
         pos: set = set()
@@ -798,8 +821,10 @@ class EEA:
                         return frozenset(pos), frozenset(neg)
             if isinstance(op, ast.In):
                 pos.add(("in", norm(left), norm(right)))
+                pos.add(("in", self.kn(left, st.fr.func), self.kn(right, st.fr.func)))
             elif isinstance(op, ast.NotIn):
                 neg.add(("in", norm(left), norm(right)))
+                neg.add(("in", self.kn(left, st.fr.func), self.kn(right, st.fr.func)))
             elif isinstance(op, (ast.Is, ast.IsNot, ast.Eq, ast.NotEq)):
                 # D.get(K) is V / is not None
                 if isinstance(left, ast.Call) and isinstance(left.func, ast.Attribute) and left.func.attr == "get" and len(left.args) == 1:
@@ -907,7 +932,13 @@ class EEA:
 
     def keys_iter_dict(self, it: ast.expr, fr: Frame) -> str | None:
         """If iterating `it` yields keys of a dict D (D, D.keys(), sorted(D), list(D), reversed(...)): text of D."""
-        for _ in range(4):
+        for _ in range(6):
+            if isinstance(it, ast.Name) and it.id not in fr.func.params:
+                # a local bound once to the key sequence (`known = sorted(D, reverse=True)`; D only grows or is constant)
+                la = self.I.local_assigns(fr.func).get(it.id) or []
+                if len(la) == 1 and isinstance(la[0], ast.Call):
+                    it = la[0]
+                    continue
             if isinstance(it, ast.Call) and isinstance(it.func, ast.Name) and it.func.id in ("sorted", "list", "tuple", "reversed", "set", "frozenset") and it.args:
                 it = it.args[0]
                 continue
@@ -1061,6 +1092,17 @@ class EEA:
             cls = self.exc_class_of(x.func, fr)
             if cls is None:
                 raise AnalysisError(f"cannot resolve raised class {norm(x.func)} at {fr.module.relpath}:{s.lineno}")
+            dfn = self.prog.lookup_fullname(cls) if cls.startswith(PKG) else None
+            if dfn is not None and dfn.kind == "func":
+                # `raise _make_error(err) from err`: an exception factory - the classes its returns construct
+                e = self.merge(e, self.expr(x, st))
+                classes = self._factory_classes(dfn.obj, 0)
+                if not classes:
+                    raise AnalysisError(f"cannot tell which exception {norm(x.func)} builds at {fr.module.relpath}:{s.lineno}")
+                for c in sorted(classes):
+                    self.obligations += 1
+                    e = self.merge(e, self._one(c, self.site(fr, s, "raise", f"raise {norm(x.func)}(...) -> {short_exc(c)}"), fr))
+                return e
             # constructor body of repo exception classes
             d = self.prog.lookup_fullname(cls) if cls.startswith(PKG) else None
             if d is not None and d.kind == "class":
@@ -1083,6 +1125,30 @@ class EEA:
             self.obligations += 1
             e = self.merge(e, self._one(c, self.site(fr, s, "raise", f"raise {norm(x)}"), fr))
         return e
+
+    def _factory_classes(self, h: FuncInfo, depth: int) -> set:
+        """Exception classes a factory function returns (every return is a constructor call, or another factory)."""
+        out: set = set()
+        if depth > 2:
+            return set()
+        hfr = Frame(self.I.make_callee(h, h.cls), None)
+        for r in self.I.return_exprs(h):
+            if not isinstance(r, ast.Call):
+                return set()
+            c = self.exc_class_of(r.func, hfr)
+            if c is None:
+                return set()
+            d = self.prog.lookup_fullname(c) if c.startswith(PKG) else None
+            if d is not None and d.kind == "func":
+                sub = self._factory_classes(d.obj, depth + 1)
+                if not sub:
+                    return set()
+                out |= sub
+            elif self._is_exception_class(c):
+                out.add(c)
+            else:
+                return set()
+        return out
 
     def _is_exception_class(self, cls: str) -> bool:
         try:
@@ -1326,7 +1392,7 @@ class EEA:
             return out
         is_map = bt.startswith(("builtins.dict", "dict[", "typing.Mapping", "typing.MutableMapping", "collections.OrderedDict", "typing.Dict")) or (tainted and ("isdict", base_txt) in st.facts)
         if is_map or bt in ("Any", "") and not bt.startswith(("builtins.list", "builtins.str", "tuple")):
-            if ("in", key_txt, base_txt) in st.facts:
+            if ("in", key_txt, base_txt) in st.facts or ("in", self.kn(e.slice, fr.func), self.kn(e.value, fr.func)) in st.facts:
                 self.discharged.append({"site": self.site(fr, e, "subscript").loc(), "what": f"{base_txt}[{key_txt}]", "by": f"guard `{key_txt} in {base_txt}` dominates with no suspension/removal in between"})
                 return {}
             if ("allfields", base_txt) in st.facts and isinstance(e.slice, ast.Name) and self._iterates_schema_fields(e.slice):
@@ -1965,6 +2031,11 @@ class EEA:
             return fr.callee.cls or fr.func.cls
         if isinstance(e.func, ast.Attribute):
             return self._repo_class_of_type(self.prog.type_of(fr.module, e.func.value))
+        if isinstance(e.func, ast.Name):
+            # `load = self._schema.load` ... `load(x)`: the receiver of the bound method
+            la = self.I.local_assigns(fr.func).get(e.func.id) or []
+            if len(la) == 1 and isinstance(la[0], ast.Attribute):
+                return self._repo_class_of_type(self.prog.type_of(fr.module, la[0].value))
         return None
 
     def mm_load(self, e: ast.Call, st: St, _schema: ClassInfo | None = None, _tainted: bool | None = None, _depth: int = 0) -> dict:
@@ -2032,19 +2103,36 @@ class EEA:
             return None
         lst = z.args[1].id
         guard = False
-        for s_ in f.node.body:
-            if s_ is rets[0] or (hasattr(s_, "lineno") and s_.lineno >= rets[0].lineno):
-                break
-            if isinstance(s_, ast.If) and isinstance(s_.test, ast.Compare) and len(s_.test.ops) == 1 and isinstance(s_.test.ops[0], (ast.NotEq, ast.Lt)):
-                from .prov import Canon
+        # the return is reached only when len(<lst>) equals (is not below) len(self.fields) - whatever the statement
+        # form of that test (raise-guard before the return, or the return inside the positive branch)
+        from .cfg import CFG as _CFG
 
-                cn = Canon(self.I, f, "")
-                a, b = cn.canon(s_.test.left), cn.canon(s_.test.comparators[0])
-                want_a = cn.canon(ast.parse(f"len({lst})", mode="eval").body)
-                if a == want_a and b == "len(self.fields)" and s_.body and isinstance(s_.body[-1], ast.Raise) and not s_.orelse:
+        if len(self.I.local_assigns(f).get(lst) or []) == 1:
+            g_ = _CFG(f.node)
+            cn = _Canon(self.I, f, "")
+            retn = g_.nodes_where(lambda x: x.contains(rets[0]))
+            want_a = cn.canon(ast.parse(f"len({lst})", mode="eval").body)
+            for t in g_.nodes:
+                if t.kind != "test" or not retn or not all(g_.dominates(t, r_) for r_ in retn):
+                    continue
+                te, neg = t.ast, False
+                while isinstance(te, ast.UnaryOp) and isinstance(te.op, ast.Not):
+                    te, neg = te.operand, not neg
+                if not (isinstance(te, ast.Compare) and len(te.ops) == 1):
+                    continue
+                a, b, op = cn.canon(te.left), cn.canon(te.comparators[0]), type(te.ops[0])
+                if (a, b) == ("len(self.fields)", want_a):
+                    a, b = b, a
+                    op = {ast.Lt: ast.Gt, ast.Gt: ast.Lt, ast.LtE: ast.GtE, ast.GtE: ast.LtE}.get(op, op)
+                if (a, b) != (want_a, "len(self.fields)"):
+                    continue
+                pol = g_.polarity(t, retn)
+                if pol is None:
+                    continue
+                if neg:
+                    pol = not pol
+                if (op in (ast.Eq, ast.GtE) and pol is True) or (op in (ast.NotEq, ast.Lt) and pol is False):
                     guard = True
-            elif isinstance(s_, ast.Assign) and any(isinstance(t, ast.Name) and t.id == lst for t in s_.targets) and guard:
-                guard = False
         if not guard:
             return None
         names = self.schema_field_names(schema)
